@@ -793,3 +793,202 @@ func liftTransparent(p *eng.Prog, fn *ssa.Function) *ssa.Function {
 	}
 	return fn
 }
+
+// lostLoopError describes one way a function that accumulates an error over the iterations of a loop and returns it can
+// forget a failure: a later iteration replaces the accumulated value by a value that may be nil.
+type lostLoopError struct {
+	At  ssa.Instruction // the phi that merges the replacing value
+	Why string
+}
+
+// lostLoopErrors analyses the error results of fn: the network of phis the returned error is merged from. For every phi
+// of that network that is carried around a loop, the accumulated error is either never set inside the loop (every value
+// that comes round is known nil: the loop leaves at the first failure) or sticky (every value that comes round is the
+// accumulated value itself, is known non-nil on that edge, or is the result of an unexported helper that is handed the
+// accumulated value and hands back that value or a non-nil one). It returns the number of loop-carried phis examined.
+func lostLoopErrors(p *eng.Prog, fn *ssa.Function) (carried int, lost []lostLoopError) {
+	if fn == nil || len(fn.Blocks) == 0 {
+		return 0, nil
+	}
+	net, order := errPhiNet(fn)
+	if len(order) == 0 {
+		return 0, nil
+	}
+	fs := p.MustFacts(fn)
+	for _, ph := range order {
+		blk := ph.Block()
+		nilC := ssa.NewConst(nil, ph.Type())
+		type edge struct {
+			v                      ssa.Value
+			pred                   *ssa.BasicBlock
+			self, nonNil, knownNil bool
+		}
+		var round []edge
+		for i, v := range ph.Edges {
+			if i >= len(blk.Preds) {
+				continue
+			}
+			pred := blk.Preds[i]
+			if !reaches(blk, pred) {
+				continue // not carried round a loop
+			}
+			e := edge{v: v, pred: pred}
+			if q, ok := v.(*ssa.Phi); ok && net[q] {
+				e.self = true
+			} else if eng.IsNilConst(v) {
+				e.knownNil = true
+			} else if isErrorGlobal(v) {
+				e.nonNil = true
+			} else if keepsAccumulator(p, v, func(x ssa.Value) bool { q, ok := x.(*ssa.Phi); return ok && net[q] }, 0) {
+				e.self = true
+			}
+			if !e.self && !e.nonNil && !e.knownNil {
+				e.nonNil = fs.ProveOnEdge("ne", v, nilC, pred, blk)
+				if !e.nonNil {
+					e.knownNil = fs.ProveOnEdge("eq", v, nilC, pred, blk)
+				}
+			}
+			round = append(round, e)
+		}
+		if len(round) == 0 {
+			continue
+		}
+		carried++
+		allNil := true
+		for _, e := range round {
+			if !e.knownNil && !e.self {
+				allNil = false
+			}
+		}
+		if allNil {
+			// self edges of an all-nil accumulator carry nil too (the network's other phis are examined on their own)
+			continue
+		}
+		for _, e := range round {
+			if e.self || e.nonNil {
+				continue
+			}
+			what := "a value that may be nil"
+			if e.knownNil {
+				what = "nil"
+			}
+			lost = append(lost, lostLoopError{At: ph, Why: "the accumulated error " + ph.Comment + " is replaced by " + what + " (" + p.Desc(e.v) + ") when the loop comes round from block " + fmt.Sprint(e.pred.Index)})
+		}
+	}
+	return carried, lost
+}
+
+// errPhiNet collects the phis the error results of fn are merged from.
+func errPhiNet(fn *ssa.Function) (map[*ssa.Phi]bool, []*ssa.Phi) {
+	net := map[*ssa.Phi]bool{}
+	var order []*ssa.Phi
+	var walk func(v ssa.Value)
+	walk = func(v ssa.Value) {
+		ph, ok := v.(*ssa.Phi)
+		if !ok || net[ph] {
+			return
+		}
+		net[ph] = true
+		order = append(order, ph)
+		for _, e := range ph.Edges {
+			walk(e)
+		}
+	}
+	for _, b := range fn.Blocks {
+		for _, in := range b.Instrs {
+			if r, ok := in.(*ssa.Return); ok {
+				for _, x := range r.Results {
+					if isErrorType(x.Type()) {
+						walk(x)
+					}
+				}
+			}
+		}
+	}
+	return net, order
+}
+
+func isErrorGlobal(v ssa.Value) bool {
+	u, ok := v.(*ssa.UnOp)
+	if !ok || u.Op != token.MUL {
+		return false
+	}
+	_, isG := u.X.(*ssa.Global)
+	return isG // a package-level error value
+}
+
+// keepsAccumulator: v is the error result of a call of an unexported same-package helper that is handed the accumulated error
+// (a value satisfying isAcc) and on every exit returns that parameter, a value known non-nil there, or a merge of such values.
+func keepsAccumulator(p *eng.Prog, v ssa.Value, isAcc func(ssa.Value) bool, depth int) bool {
+	if depth > 3 {
+		return false
+	}
+	idx := 0
+	cv := v
+	if e, ok := cv.(*ssa.Extract); ok {
+		idx, cv = e.Index, e.Tuple
+	}
+	cl, ok := cv.(*ssa.Call)
+	if !ok {
+		return false
+	}
+	g := eng.TransparentCallee(cl)
+	if g == nil || len(g.Blocks) == 0 {
+		return false
+	}
+	var acc *ssa.Parameter
+	for i, a := range cl.Common().Args {
+		if isAcc(a) && i < len(g.Params) {
+			acc = g.Params[i]
+		}
+	}
+	if acc == nil {
+		return false
+	}
+	fs := p.MustFacts(g)
+	seen := map[*ssa.Phi]bool{}
+	var keeps func(x ssa.Value, pred, blk *ssa.BasicBlock) bool
+	keeps = func(x ssa.Value, pred, blk *ssa.BasicBlock) bool {
+		if x == ssa.Value(acc) || isErrorGlobal(x) {
+			return true
+		}
+		if ph, ok := x.(*ssa.Phi); ok {
+			if seen[ph] {
+				return true
+			}
+			seen[ph] = true
+			for i, e := range ph.Edges {
+				if i >= len(ph.Block().Preds) || !keeps(e, ph.Block().Preds[i], ph.Block()) {
+					return false
+				}
+			}
+			return true
+		}
+		inG := func(y ssa.Value) bool { q, ok := y.(*ssa.Phi); return y == ssa.Value(acc) || ok && seen[q] }
+		if keepsAccumulator(p, x, inG, depth+1) {
+			return true
+		}
+		if eng.IsNilConst(x) || pred == nil {
+			return false
+		}
+		return fs.ProveOnEdge("ne", x, ssa.NewConst(nil, x.Type()), pred, blk)
+	}
+	n := 0
+	for _, b := range g.Blocks {
+		for _, in := range b.Instrs {
+			r, ok := in.(*ssa.Return)
+			if !ok || idx >= len(r.Results) {
+				continue
+			}
+			n++
+			x := r.Results[idx]
+			if !keeps(x, nil, nil) {
+				// a plain value returned from a block that is only reached when it is non-nil
+				if len(b.Preds) != 1 || !fs.ProveOnEdge("ne", x, ssa.NewConst(nil, x.Type()), b.Preds[0], b) {
+					return false
+				}
+			}
+		}
+	}
+	return n > 0
+}
